@@ -833,3 +833,53 @@ Definition acks_of_writer_config (c : wconfig) : Z :=
   if Z.eqb (wc_requiredAcks c) 0 then (-1)%Z else wc_requiredAcks c.
 Definition cfg_of_writer_config (c : wconfig) (wt : option N) (retr : err -> bool) : config :=
   cfg_of_options (options_of_writer_config c) (wc_async c) wt retr.
+
+(* ------------------------------------------------------------------------------------------
+   BatchTimeout counts from the batch's OPENING (newWriteBatch: time.NewTimer(batchTimeout) when
+   the batch is created; nothing re-arms it when messages are added later).  In the transition
+   system this is: the awaitBatch goroutine is spawned with the batch (new_batch) and its Timer
+   step stays enabled whatever is added (C08_open_batch_has_timer).  Timed reading used by the
+   trickle family: messages arrive at the (ascending) times [ts]; a batch opens with its first
+   message at t0 and takes the following ones while they arrive before t0 + timeout and there
+   is room — later arrivals never extend the deadline.
+   ------------------------------------------------------------------------------------------ *)
+Fixpoint take_batch (t0 timeout : Z) (room : nat) (ts : list Z) {struct ts} : list Z * list Z :=
+  match ts with
+  | [] => ([], [])
+  | t :: rest =>
+    match room with
+    | O => ([], ts)
+    | S r => if Z.ltb t (t0 + timeout)
+             then let (b, rem) := take_batch t0 timeout r rest in (t :: b, rem)
+             else ([], ts)
+    end
+  end.
+Fixpoint batches_by_deadline (fuel : nat) (timeout : Z) (bsize : nat) (ts : list Z) {struct fuel} : list (list Z) :=
+  match fuel, ts with
+  | S f, t0 :: rest =>
+    let (b, rem) := take_batch t0 timeout (pred bsize) rest in
+    (t0 :: b) :: batches_by_deadline f timeout bsize rem
+  | _, _ => []
+  end.
+(* the check on a recorded request: all its messages were accepted within timeout + margin of
+   its first one, and it respects BatchSize *)
+Definition span_ok (timeout margin : Z) (bsize : nat) (req : list Z) : bool :=
+  match req with
+  | [] => true
+  | t0 :: _ => forallb (fun t => Z.leb t0 t && Z.leb t (t0 + timeout + margin)) req && (length req <=? bsize)
+  end.
+
+(* ------------------------------------------------------------------------------------------
+   The Transport kafka.NewWriter builds from WriterConfig.Dialer and the config: SASL, TLS and
+   ClientID are copied from the dialer independently of each other; IdleTimeout =
+   IdleConnTimeout or 9 minutes; MetadataTTL = RebalanceInterval or 15 s (milliseconds here).
+   ------------------------------------------------------------------------------------------ *)
+Record wdialer := mkDialer { d_sasl : bool; d_tls : bool; d_clientID : bool }.
+Record wtransport := mkTransport {
+  t_sasl : bool; t_tls : bool; t_clientID : bool; t_idleMs : Z; t_ttlMs : Z; t_dial : bool
+}.
+Definition transport_of_writer_config (d : option wdialer) (idleMs ttlMs : Z) : wtransport :=
+  let d' := match d with Some x => x | None => mkDialer false false false end in   (* DefaultDialer *)
+  mkTransport (d_sasl d') (d_tls d') (d_clientID d')
+              (if Z.eqb idleMs 0 then 540000%Z else idleMs)
+              (if Z.eqb ttlMs 0 then 15000%Z else ttlMs) true.
